@@ -19,8 +19,8 @@ CONSTANTS W,        \* key width in bits = number of buckets
 NB == W
 Keys == 0..(2^W - 1)
 
-VARIABLES L, bk, last, hist, nops
-vars == <<L, bk, last, hist, nops>>
+VARIABLES L, bk, led, last, hist, nops
+vars == <<L, bk, led, last, hist, nops>>
 
 Bit(x, b) == (x \div (2^b)) % 2 = 1
 ILog2(x) == MaxOf({b \in 0..(W - 1) : Bit(x, b)})
@@ -52,7 +52,8 @@ Init == /\ L \in Locals
         /\ \E S \in UNION {kSubset(n, Keys \ {L}) : n \in 0..InitMax} :
              /\ bk = TableOf(L, S)
              /\ \A i \in 0..(NB - 1) : Len(bk[i]) <= K
-        /\ last = [o |-> [op |-> "init"], ret |-> "ok", pre |-> EmptyTable(NB)]
+        /\ led = KnownIds(bk)            \* initial tables hold connected peers
+        /\ last = [o |-> [op |-> "init"], ret |-> "ok", pre |-> EmptyTable(NB), led |-> {}]
         /\ hist = <<>>
         /\ nops = 0
 
@@ -60,7 +61,8 @@ Slim(o) == IF o.op = "closest" THEN [op |-> "closest", k |-> o.k, t |-> o.t] ELS
 
 Do(o) == LET r == ImplStep(K, NB, Fix, bk, o) IN
            /\ bk' = r.bk
-           /\ last' = [o |-> o, ret |-> r.ret, pre |-> bk]
+           /\ led' = LedUpd(led, o, r.ret, r.bk)
+           /\ last' = [o |-> o, ret |-> r.ret, pre |-> bk, led |-> led]
            /\ hist' = Append(hist, Slim(o))
            /\ nops' = nops + 1
            /\ L' = L
@@ -75,11 +77,11 @@ Spec == Init /\ [][Next]_vars
 \* recorded defect; every other requirement stays in force.
 StepOK ==
   [][LET o == last'.o  S == last'.pre  r == last'.ret IN
-       /\ PropFrame(K, S, o, bk')
+       /\ PropFrame(K, S, last'.led, o, bk')
        /\ o.op = "closest" => \/ ClosestOK(S, o, r)
                               \/ AllowD11 /\ D11Shape(S, o, r)]_vars
 StateInv == StateOK(K, bk)
 
-View == <<L, bk, nops>>
+View == <<L, bk, led, nops>>
 Emit == PrintT(<<"B", ToJson([W |-> W, K |-> K, L |-> L', ops |-> hist'])>>)
 =============================================================================
